@@ -5,6 +5,7 @@ import (
 	"go/ast"
 	"go/token"
 	"go/types"
+	"regexp"
 	"sort"
 	"strings"
 
@@ -810,6 +811,22 @@ func c3Bool(c *Ctx) {
 	for _, cl := range CallsDeep(addTo) {
 		if f := CalleeFunc(cl); f != nil && FNm(f) == "AddBool" {
 			okU = Desc(Args(cl)[2]) == "(f.Integer == 1)"
+		}
+	}
+	if !okU {
+		// the arm lives in a function of its own (an entry of a table of adders): explored with the type fixed
+		if k, isK := c.ConstVal(CorePath, "BoolType"); isK {
+			ai := c3ArmSSA(c, addTo, k)
+			for _, ec := range ai.calls {
+				if ec.name != "AddBool" || !ec.onEnc || len(ec.args) != 2 {
+					continue
+				}
+				for _, o := range ec.args[1].ops {
+					if o.kind == "expr" && regexp.MustCompile(`^\(\w+\.Integer == 1\)$`).MatchString(o.name) {
+						okU = !ai.trunc
+					}
+				}
+			}
 		}
 	}
 	c.Check(okU, "R3.1", "zapcore.Field.AddTo", "unpack/BoolType", addTo.Pos(), "the Bool arm unpacks with f.Integer == 1")
@@ -1730,22 +1747,40 @@ func c3Time(c *Ctx) {
 	// AddTo rebuild
 	addTo := c.Method(CorePath, "Field", "AddTo")
 	nT := 0
-	for _, cl := range CallsDeep(addTo) {
-		if f := CalleeFunc(cl); f != nil && FNm(f) == "AddTime" {
-			for _, alt := range valueAlternatives(Args(cl)[2], cl.Block()) {
-				d := alt.desc
-				conds := append(append([]string{}, alt.conds...), AtomStrings(Guards(cl))...)
-				switch {
-				case d == "In(Unix(0, f.Integer), f.Interface.(*time.Location))":
-					nT++
-					c.Check(containsS(conds, "f.Interface != nil"), "R3.5", "zapcore.Field.AddTo", "rebuild-with-location", cl.Pos(), "TimeType is rebuilt as time.Unix(0, n).In(loc) when a location is present")
-				case d == "Unix(0, f.Integer)":
-					nT++
-					c.OK("R3.5", "zapcore.Field.AddTo", "rebuild-without-location", cl.Pos(), "TimeType without location is rebuilt as time.Unix(0, n)")
-				case d == "f.Interface.(time.Time)":
-				default:
-					c.Bad("R3.5", "zapcore.Field.AddTo", "rebuild", cl.Pos(), "unexpected time reconstruction %s", d)
+	scanTime := func(calls []ssa.CallInstruction, f0 string) {
+		for _, cl := range calls {
+			if f := CalleeFunc(cl); f != nil && FNm(f) == "AddTime" {
+				for _, alt := range valueAlternatives(Args(cl)[2], cl.Block()) {
+					d := alt.desc
+					conds := append(append([]string{}, alt.conds...), AtomStrings(Guards(cl))...)
+					switch {
+					case d == "In(Unix(0, "+f0+".Integer), "+f0+".Interface.(*time.Location))":
+						nT++
+						c.Check(containsS(conds, f0+".Interface != nil"), "R3.5", "zapcore.Field.AddTo", "rebuild-with-location", cl.Pos(), "TimeType is rebuilt as time.Unix(0, n).In(loc) when a location is present")
+					case d == "Unix(0, "+f0+".Integer)":
+						nT++
+						c.OK("R3.5", "zapcore.Field.AddTo", "rebuild-without-location", cl.Pos(), "TimeType without location is rebuilt as time.Unix(0, n)")
+					case d == f0+".Interface.(time.Time)":
+					default:
+						c.Bad("R3.5", "zapcore.Field.AddTo", "rebuild", cl.Pos(), "unexpected time reconstruction %s", d)
+					}
 				}
+			}
+		}
+	}
+	scanTime(CallsDeep(addTo), "f")
+	if nT == 0 {
+		// the arms live in functions of their own (a package-level table of adders AddTo indexes by the field type):
+		// the function literals of the package initialiser that take a Field
+		if ini := c.SSAPkg[CorePath].Func("init"); ini != nil {
+			for _, lit := range ini.AnonFuncs {
+				if len(lit.Params) == 0 {
+					continue
+				}
+				if n, _ := types.Unalias(lit.Params[0].Type()).(*types.Named); n == nil || n.Obj() != c.fieldNamed().Obj() {
+					continue
+				}
+				scanTime(Calls(lit), PN(lit.Params[0]))
 			}
 		}
 	}
